@@ -1804,7 +1804,7 @@ fn gen_c08(o: &mut Out, r: &mut Rng, d: &GDict, tier: &str, cuts: bool) {
 
 fn gen_c10(o: &mut Out, r: &mut Rng, tier: &str) {
     let thorough = tier == "thorough";
-    let faults = ["malformed", "oversized", "short", "stall_midframe", "stall_handshake", "half_hello", "reset", "panic"];
+    let faults = ["malformed", "oversized", "short", "stall_midframe", "stall_handshake", "half_hello", "reset", "panic", "garbage_close", "hello_close", "plain_req_close"];
     let whens = ["before", "during", "after"];
     // the scenario table: fault kind x moment x listener kind; number of well-behaved clients and of faulty peers vary
     for tls in [0, 1] {
@@ -1823,7 +1823,7 @@ fn gen_c10(o: &mut Out, r: &mut Rng, tier: &str) {
             }
             // many faulty peers of one kind, one after the other: whatever a connection holds (a task, a permit, a
             // slot in some table) must be given back on every exit path, or the listener runs dry
-            let many = if thorough { 200 } else { 48 };
+            let many = if thorough { 1100 } else { 130 };
             o.case(&format!("listener many fault={} tls={}", f, tls));
             o.line(&format!("lsn tls={} good=2 reqs=3 fault={} when=before nfaulty={}", tls, f, many));
         }
